@@ -39,7 +39,7 @@ Definition emit_single_or_fua (mtu : Z) (nalu : list Z) : res (list bref) :=
       let maxf := mtu - 2 in
       let len := zlen body in
       if (if maxf <? len then maxf else len) <=? 0 then Ok []
-      else fua_frags (S (length body)) maxf (Z.land b0 96) (Z.land b0 31) len body
+      else fua_frags (S (length body)) maxf (Z.land b0 224) (Z.land b0 31) len body
   end.
 
 (* packetizeH264Nalu reads nalu[0] before anything else *)
@@ -174,7 +174,7 @@ Definition h264_unmarshal (st : h264pkt) (payload : option (list Z)) : res (h264
         let buf0 := if negb (Z.land b1 128 =? 0) then [] else hk_fua st in
         let buf := buf0 ++ body in
         if negb (Z.land b1 64 =? 0) then
-          let nalu := Z.lor (Z.land b0 96) (Z.land b1 31) :: buf in
+          let nalu := Z.lor (Z.land b0 224) (Z.land b1 31) :: buf in
           Ok (mkH264Pkt (hk_avc st) [], packaging (hk_avc st) [] nalu)
         else Ok (mkH264Pkt (hk_avc st) buf, [])
       end
